@@ -104,6 +104,8 @@ def cases(tier, seed):
                 for upd in (True, False):
                     out.append(dict(trainer="ivector", n=n, part=[kind, part], labels=None, mode=mode,
                                     devs=1 if tier == "quick" else 2, iters=2, upd=upd, seed=seed))
+                out.append(dict(trainer="ivector", n=n, part=[kind, part], labels=None, mode=mode, devs=0, iters=3, upd=True, thr=True, seed=seed))
+                out.append(dict(trainer="ivector", n=n, part=[kind, part], labels=None, mode=mode, devs=0, iters=2, upd=False, tiny=True, seed=seed))
     # pairwise-tree reduction: P singleton partitions, both parities at every level
     for p in range(1, (12 if tier == "quick" else 24) + 1):
         for mode in ("shared", "serialised"):
@@ -145,7 +147,8 @@ def _fit(case, ubm, stats, bag):
     tr = case["trainer"]
     if tr == "ivector":
         np.random.seed(7)
-        m = IVectorMachine(ubm, dim_t=2, max_iterations=case["iters"], update_sigma=case["upd"], variance_floor=1e-5)
+        m = IVectorMachine(ubm, dim_t=2, max_iterations=case["iters"], update_sigma=case["upd"], variance_floor=1e-5,
+                           convergence_threshold=(1e-3 if case.get("thr") else None))
         m.fit(X)
         return dict(T=np.array(m.T), sigma=np.array(m.sigma))
     y = np.array(case["labels"])
@@ -174,6 +177,9 @@ def run_case(case):
     c = Ctx()
     s, o = affine(case["seed"])
     ubm, stats = _stats(case["n"], s, o)
+    if case.get("tiny"):
+        for st in stats:  # first component: tiny but non-zero total occupancy
+            st.n[0], st.sum_px[0], st.sum_pxx[0] = st.n[0] * 2.0**-27, st.sum_px[0] * 2.0**-27, st.sum_pxx[0] * 2.0**-27
     tags = dict(trainer=case["trainer"], mode=case["mode"])
     with dask.config.set(scheduler="sync"):
         ref = _fit(case, ubm, stats, bag=False)
@@ -195,6 +201,14 @@ def run_case(case):
             for k in sorted(ref):
                 c.close(out[k], ref[k], "params", f"{case['trainer']} {k} part={case['part']} labels={case['labels']} mode={case['mode']} schedule={prefix}",
                         tags, rtol=1e-8, scale=float(np.abs(ref[k]).max()))
+            if case["trainer"] == "ivector":
+                # each component's block of T is solved on its own: compare it on its own scale, so that a rarely
+                # visited component is not hidden behind the well populated ones
+                for ci in range(ref["T"].shape[0]):
+                    sc = float(np.abs(ref["T"][ci]).max())
+                    ok = bool(np.all(np.abs(out["T"][ci] - ref["T"][ci]) <= 1e-7 * sc + 1e-300))
+                    c.check(ok, "params", f"ivector T[{ci}] on its own scale part={case['part']} mode={case['mode']} schedule={prefix}: "
+                            f"max diff {float(np.abs(out['T'][ci] - ref['T'][ci]).max()):.3e} scale {sc:.3e}", tags)
             if hooked:
                 c.check(len(_RECORD) == case["iters"], "exactly_once", f"{len(_RECORD)} M-steps recorded for {case['iters']} iterations", tags)
                 for r in _RECORD:
@@ -213,5 +227,5 @@ def run_case(case):
     c.count("schedules", nsched)
     c.count("distinct_outcomes_gt1", 1 if len(outcomes) > 1 else 0)
     npart = case["part"][1] if case["part"][0] == "sequence" else len(case["part"][1])
-    sig = "%s|%s|%s|%s|%s|%s|%s" % (case["trainer"], case["n"], case["part"], case["labels"], case["mode"], case.get("upd"), case.get("pre"))
+    sig = "%s|%s|%s|%s|%s|%s|%s|%s|%s" % (case["trainer"], case["n"], case["part"], case["labels"], case["mode"], case.get("upd"), case.get("pre"), case.get("thr"), case.get("tiny"))
     return c.result(nontrivial=(npart >= 2 or nsched >= 2), sig=sig)
